@@ -76,10 +76,12 @@ func schedCase(rng *rand.Rand, w *Writer, suite string, kind string, canonical i
 		// whatever the other handler does to the output buffer meanwhile
 		n1 := 1 + rng.Intn(20)
 		n2 := 1 + rng.Intn(20)
-		if rng.Intn(3) != 0 && n2 > n1 {
-			n1, n2 = n2, n1
+		if (rng.Intn(3) != 0 || canonical == 3) && n2 > n1 {
+			n1, n2 = n2, n1 // (always in the canonical schedule: the second message fits into the first one's array)
 		}
-		h.submit(d, uint8(1+rng.Intn(200)), rng.Intn(2) == 0, randBytes(rng, n1))
+		// (in the canonical schedule the first message does not ask for an acknowledgement: a confirmed one would be loaded
+		// again by the second uplink - the retransmission of C08 - and the second message would not come into play)
+		h.submit(d, uint8(1+rng.Intn(200)), rng.Intn(2) == 0 && canonical != 3, randBytes(rng, n1))
 		h.submit(d, uint8(1+rng.Intn(200)), rng.Intn(2) == 0, randBytes(rng, n2))
 	} else if canonical == 3 && kind == "rejoin" {
 		// nothing queued: the uplink's handler leaves the buffer entry alone and can collect the join-accept
